@@ -9,7 +9,7 @@
      mem <inst> <bytes>
      policy page|frag|tmpl <int>*   |  policy booltrue <int>  |  policy arraybit <0/1>
      clearproject                            drops templates, tags and memory (policies, core state kept)
-     wf                                      -> ok <wf_project 0/1> <wf_mem 0/1>
+     wf                                      -> ok <wf_project 0/1> <wf_mem 0/1> | <id of a bad template>* | <instance of a bad tag>*
      parsereq <text>                         -> ok <program | none> <bit | -1> <count | -1> { | <name> <idx>* }*   | none
      refread <text>                          -> ok <type name> <count, 0 = single value> <value>   | none
      refwrite <text> <value>                 -> ok <inst> <image after the write>   | none      (the state is NOT changed)
@@ -254,7 +254,9 @@ Definition extra (st : tstate lstate) (ts : list tok) : option (tstate lstate * 
       else if is_sym "clearproject" cmd then
         Some (upd st (fun s => set_mem [] (set_proj empty_project s)), [ok])
       else if is_sym "wf" cmd then
-        Some (st, [ok; bool_tok (wf_project p); bool_tok (wf_mem p (ls_mem app))])
+        Some (st, [ok; bool_tok (wf_project p); bool_tok (wf_mem p (ls_mem app))]
+                  ++ bar :: map TInt (bad_templates [] (p_templates p))
+                  ++ bar :: map (fun g => TInt (g_inst g)) (filter (fun g => negb (tag_ok p g)) (p_tags p)))
       else if is_sym "parsereq" cmd then
         match args with
         | [t] => match tok_text t with
